@@ -28,7 +28,8 @@ def task_step(pl):
         t = time.time()
         try:
             res = lexcheck.explore_step(prog, d, tables, N, pl['start'], partial=pl.get('partial', False),
-                                        is_release=pl.get('release', False), budget=pl.get('budget'))
+                                        is_release=pl.get('release', False), budget=pl.get('budget'),
+                                        stream=pl.get('stream', False))
             break
         except EngineError as e:
             if 'time budget' in str(e) and N > pl.get('Nmin', 3):
@@ -175,7 +176,7 @@ def confirm_lex_failure(P, name, d, f, r):
         gi += 1
         if e[0] == 'item':
             vname = d.variants[e[1][1]].name
-            if g[0] != 'ok' or (g[1], g[2]) != (e[2], e[3]) or not g[3].startswith(vname):
+            if g[0] != 'ok' or (g[1], g[2]) != (e[2], e[3]) or not (g[3] == vname or g[3].startswith(vname + '(')):
                 mism = f'native {g} but reference expects Ok({vname}) at {e[2]}..{e[3]}'
                 break
         else:
@@ -193,7 +194,7 @@ def confirm_lex_failure(P, name, d, f, r):
 # ----------------------------------------------------------------------------- the lexing family
 def lex_family(prop, tier, seed, *, relevant, select, name, cfgs, N, starts, budget, profiles=('dev',),
                partial=False, level='translation_validation', extra_assumptions=(), long_defs=(), long_N=17,
-               rule=None, post=None, evidence_hook=None, acceptance=None, release_only=None):
+               rule=None, post=None, evidence_hook=None, acceptance=None, release_only=None, stream_defs=(), stream_N=4, cfg_filter=None):
     ev = report.Evidence(prop, tier, seed, level)
     name = f'{name}-{prop}'      # own crate dir per check: checks may run concurrently
     alld = corpus_defs.all_defs(seed, tier != 'quick')
@@ -215,9 +216,15 @@ def lex_family(prop, tier, seed, *, relevant, select, name, cfgs, N, starts, bud
         for (c, prof), mir in P.progs.items():
             if prof == 'release' and release_only is not None and not release_only(d):
                 continue
+            if cfg_filter is not None and not cfg_filter(d, c):
+                continue
             for s in starts:
                 payloads.append(dict(key=f'{d.id}/{c}/{prof}/{s}', d=d, mir=mir, cfg=c, tables=P.tables[d.id], N=N,
                                      start=s, budget=budget, release=(prof == 'release'), partial=partial))
+            if d.id in stream_defs and prof == 'dev':
+                # whole-stream run (next() until None) as a cross-check of the induction over positions
+                payloads.append(dict(key=f'{d.id}/{c}/{prof}/stream', d=d, mir=mir, cfg=c, tables=P.tables[d.id], N=stream_N,
+                                     start=0, budget=budget * 3, release=False, partial=partial, stream=True))
             for lid, ln in long_runs:
                 if d.id == lid and prof == 'dev':
                     payloads.append(dict(key=f'{d.id}/{c}/{prof}/long{ln}', d=d, mir=mir, cfg=c, tables=P.tables[d.id],
@@ -310,7 +317,7 @@ def lex_family(prop, tier, seed, *, relevant, select, name, cfgs, N, starts, bud
         'samples': samples,
         'bounds': {'N_bytes_max': N, 'starts': list(starts), 'per_definition': {k: {'N_reached': sorted(set(v['N'])),
                    'leaves': v['leaves'], 'cfgs': sorted(v['cfgs']), 'wall_s': round(v['wall'], 1)} for k, v in per_def.items()},
-                   'long_runs': [list(x) for x in long_runs],
+                   'long_runs': [list(x) for x in long_runs], 'whole_stream_runs': {'definitions': sorted(set(stream_defs) & set(per_def)), 'N': stream_N} if stream_defs else None,
                    'outside': 'inputs longer than N bytes; definitions outside the corpus; rustc/LLVM lowering after MIR'},
         'queries_discharged': tot['queries'], 'queries_reused_on_replay': tot['cached'], 'solver_s': round(tot['solver_s'], 1),
         'paths': tot['paths'], 'mir_blocks_executed': tot['steps'],
@@ -347,7 +354,7 @@ def lex_family(prop, tier, seed, *, relevant, select, name, cfgs, N, starts, bud
 def tier_params(tier):
     if tier == 'quick':
         return dict(cfgs=CFG_QUICK, N=6, starts=(0, 1, 3), budget=45)
-    return dict(cfgs=CFG_ALL, N=9, starts=(0, 1, 2, 3, 5), budget=400)
+    return dict(cfgs=CFG_ALL, N=8, starts=(0, 1, 2, 4), budget=150)
 
 
 def sel_tags(*tags, quick_only=False):
@@ -393,11 +400,16 @@ def with_rejects(sel, *tags):
     return f
 
 
+STREAM_QUICK = ('nested_prefix', 'eoi_dollar', 'polish', 'maybe_end', 'neg_bytes', 'word_boundary')
+STREAM_THOROUGH = STREAM_QUICK + ('kw_ident', 'skips', 'punct', 'cb_unit', 'look_str', 'bytes_basic', 'icase', 'subpat')
+
+
 def c03(tier, seed):
     from .accept_checks import acceptance_empty
     tp = tier_params(tier)
     return lex_family('C03', tier, seed, relevant={'C03'}, select=with_rejects(sel_for(tier), 'empty'), name='lex',
-                      acceptance=acceptance_empty, **tp)
+                      acceptance=acceptance_empty, stream_defs=STREAM_QUICK if tier == 'quick' else STREAM_THOROUGH,
+                      stream_N=4 if tier == 'quick' else 5, **tp)
 
 
 def c04(tier, seed):
@@ -413,6 +425,9 @@ def c05(tier, seed):
     tp = tier_params(tier)
     tp['cfgs'] = ['tc-unsafe', 'sm-unsafe', 'tc-safe'] if tier == 'quick' else CFG_ALL
     hook = {}
+    if tier == 'quick':
+        tp['starts'] = (0, 3)
+        tp['cfg_filter'] = lambda d, c: c != 'sm-unsafe' or ('loop' in d.tags or 'look' in d.tags)
     rc = lex_family('C05', tier, seed, relevant={'C05'}, select=sel_for(tier, 'loop'), name='lex',
                     long_defs=LONG_QUICK if tier == 'quick' else LONG_THOROUGH,
                     profiles=('dev', 'release'), release_only=(lambda d: 'look' in d.tags) if tier == 'quick' else None,
@@ -815,7 +830,8 @@ def partial_post(P, d, f, r, info):
                     es = (e[2], e[3]) if e[0] == 'item' else (e[1], e[2])
                     samevar = True
                     if g[0] == 'ok' and e[0] == 'item' and e[1][0] == 'variant':
-                        samevar = g[3].startswith(d.variants[e[1][1]].name)
+                        vn = d.variants[e[1][1]].name
+                        samevar = g[3] == vn or g[3].startswith(vn + '(')
                     if gs != es or (g[0] == 'ok') != (e[0] == 'item') or not samevar:
                         info['confirmation'] = f'continuation {bytes(ext)!r} changes the committed item {g} into {e}'
                         return True
